@@ -23,6 +23,7 @@ use datafusion_expr::Operator;
 use datafusion_expr_common::type_coercion::binary::{binary_numeric_coercion, comparison_coercion, decimal_coercion};
 use hutil::{Args, Rng, Run};
 
+const LOSSY: &str = "decimal-truncated-to-integer-by-coercion ";
 const OPS: [(Operator, &str, &str); 6] = [
     (Operator::Eq, "Eq", "="),
     (Operator::NotEq, "NotEq", "<>"),
@@ -32,31 +33,20 @@ const OPS: [(Operator, &str, &str); 6] = [
     (Operator::GtEq, "GtEq", ">="),
 ];
 
-/// exact value: unscaled, scale
+/// exact value: unscaled / 10^scale   (scale may be negative)
 #[derive(Clone, Copy, Debug, PartialEq)]
 struct V {
-    u: i128,
-    s: u32,
+    u: i256,
+    s: i32,
 }
 
 fn type_sexp(t: &DataType) -> String {
     match t {
+        DataType::Decimal32(p, s) => format!("(Decimal32 {p} {s})"),
+        DataType::Decimal64(p, s) => format!("(Decimal64 {p} {s})"),
         DataType::Decimal128(p, s) => format!("(Decimal128 {p} {s})"),
+        DataType::Decimal256(p, s) => format!("(Decimal256 {p} {s})"),
         t => format!("{t:?}"),
-    }
-}
-fn type_sql(t: &DataType) -> String {
-    match t {
-        DataType::Int8 => "TINYINT".into(),
-        DataType::Int16 => "SMALLINT".into(),
-        DataType::Int32 => "INT".into(),
-        DataType::Int64 => "BIGINT".into(),
-        DataType::UInt8 => "TINYINT UNSIGNED".into(),
-        DataType::UInt16 => "SMALLINT UNSIGNED".into(),
-        DataType::UInt32 => "INT UNSIGNED".into(),
-        DataType::UInt64 => "BIGINT UNSIGNED".into(),
-        DataType::Decimal128(p, s) => format!("DECIMAL({p},{s})"),
-        t => panic!("no sql type for {t:?}"),
     }
 }
 
@@ -72,14 +62,53 @@ fn int_types() -> Vec<DataType> {
         DataType::UInt64,
     ]
 }
+/// decimal column types driven through SQL: all four widths, max precision, scale 0, scale = precision,
+/// a negative scale, mid values
 fn dec_types(thorough: bool) -> Vec<DataType> {
-    let mut v = vec![(5u8, 0i8), (10, 2), (20, 0), (38, 0), (38, 10), (38, 37), (3, 3), (18, 6)];
+    use DataType::*;
+    let mut v = vec![
+        Decimal32(5, 2), Decimal32(9, 0), Decimal32(9, 9),
+        Decimal64(18, 0), Decimal64(10, 4), Decimal64(18, 18),
+        Decimal128(5, 0), Decimal128(10, 2), Decimal128(20, 0), Decimal128(38, 0), Decimal128(38, 37), Decimal128(18, 6), Decimal128(5, -2),
+        Decimal256(76, 0), Decimal256(40, 10), Decimal256(76, 76), Decimal256(50, 25),
+    ];
     if thorough {
-        v.extend([(1, 0), (9, 9), (19, 1), (38, 38), (30, 15), (21, 20)]);
+        v.extend([
+            Decimal32(1, 0), Decimal32(7, -2), Decimal64(3, 3), Decimal64(12, -3),
+            Decimal128(38, 10), Decimal128(3, 3), Decimal128(1, 0), Decimal128(9, 9), Decimal128(19, 1), Decimal128(38, 38), Decimal128(30, 15), Decimal128(21, 20),
+            Decimal256(39, 0), Decimal256(76, 38), Decimal256(20, -5), Decimal256(10, 2),
+        ]);
     }
-    v.into_iter().map(|(p, s)| DataType::Decimal128(p, s)).collect()
+    v
+}
+/// every numeric type for the pure table oracle (coercion symmetry)
+fn all_numeric_types() -> Vec<DataType> {
+    use DataType::*;
+    let mut v = int_types();
+    v.extend([Float16, Float32, Float64]);
+    for (w, maxp) in [(32u16, 9u8), (64, 18), (128, 38), (256, 76)] {
+        let mk = |p: u8, s: i8| match w {
+            32 => Decimal32(p, s),
+            64 => Decimal64(p, s),
+            128 => Decimal128(p, s),
+            _ => Decimal256(p, s),
+        };
+        let half = maxp / 2;
+        for (p, s) in [
+            (maxp, 0i8), (maxp, maxp as i8), (maxp, -(maxp as i8)), (maxp, half as i8), (maxp, -3), (1, 0), (1, 1), (1, -1), (half, 2), (half, half as i8), (3, -2), (5, 2), (maxp - 1, 1),
+        ] {
+            v.push(mk(p, s));
+        }
+    }
+    v
 }
 
+fn dec_ps(t: &DataType) -> Option<(u8, i8)> {
+    match t {
+        DataType::Decimal32(p, s) | DataType::Decimal64(p, s) | DataType::Decimal128(p, s) | DataType::Decimal256(p, s) => Some((*p, *s)),
+        _ => None,
+    }
+}
 fn int_bounds(t: &DataType) -> (i128, i128) {
     match t {
         DataType::Int8 => (i8::MIN as i128, i8::MAX as i128),
@@ -93,67 +122,81 @@ fn int_bounds(t: &DataType) -> (i128, i128) {
         _ => unreachable!(),
     }
 }
+fn p10(n: u32) -> i256 {
+    i256::from_string(&format!("1{}", "0".repeat(n as usize))).unwrap()
+}
+fn big(v: i128) -> i256 {
+    i256::from_i128(v)
+}
 
 /// boundary values of a type (exact)
 fn values(t: &DataType, rng: &mut Rng, extra: usize) -> Vec<V> {
     let mut out: Vec<V> = vec![];
-    match t {
-        DataType::Decimal128(p, s) => {
-            let max = 10i128.pow(*p as u32) - 1;
-            let one = 10i128.pow(*s as u32);
-            let mut us = vec![-max, -1, 0, 1, max, max - 1];
-            if one <= max {
-                us.extend([one, -one]);
-                if one + 1 <= max {
-                    us.push(one + 1);
+    if let Some((p, s)) = dec_ps(t) {
+        let max = p10(p as u32) - big(1);
+        let mut us = vec![-max, big(-1), big(0), big(1), max, max - big(1)];
+        if s >= 0 && (s as u8) < p {
+            let one = p10(s as u32);
+            us.extend([one, -one]);
+            if one + big(1) <= max {
+                us.push(one + big(1)); // 1.00…01
+            }
+            if s >= 1 {
+                // values with a fractional part: 1.5, 0.5, -2.25 where representable
+                let half = p10(s as u32 - 1) * big(5);
+                for u in [one + half, half, -(one + one + half / big(2))] {
+                    if u <= max && u >= -max {
+                        us.push(u);
+                    }
                 }
             }
             for k in [127i128, 128, 255, 256, 32767, 65536, 1 << 31, (1 << 32) - 1, 1 << 53, (1 << 53) + 1, i64::MAX as i128, u64::MAX as i128] {
-                // the integer k itself, when representable
-                if let Some(u) = k.checked_mul(one) {
+                if let Some(u) = big(k).checked_mul(one) {
                     if u <= max && rng.chance(1, 3) {
                         us.push(u);
                     }
                 }
             }
-            for _ in 0..extra {
-                let r = ((rng.next() as i128) << 64 | rng.next() as i128) % (max + 1);
-                us.push(if rng.chance(1, 2) { r } else { -r });
-            }
-            us.sort();
-            us.dedup();
-            out.extend(us.into_iter().map(|u| V { u, s: *s as u32 }));
         }
-        t => {
-            let (lo, hi) = int_bounds(t);
-            let mut us = vec![lo, lo + 1, hi - 1, hi, 0, 1];
-            if lo < 0 {
-                us.push(-1);
-            }
-            for k in [127i128, 128, 255, 256, 32767, 32768, 65535, 65536, (1 << 31) - 1, 1 << 31, (1 << 32) - 1, 1 << 32, (1 << 53) - 1, 1 << 53, (1 << 53) + 1, i64::MAX as i128, 1 << 63] {
-                for v in [k, -k, -k - 1] {
-                    if v >= lo && v <= hi && rng.chance(1, 4) {
-                        us.push(v);
-                    }
+        for _ in 0..extra {
+            let len = 1 + rng.below(p as u64) as usize;
+            let digits: String = (0..len).map(|_| char::from(b'0' + rng.below(10) as u8)).collect();
+            let r = i256::from_string(&digits).unwrap();
+            us.push(if rng.chance(1, 2) { r } else { -r });
+        }
+        us.sort();
+        us.dedup();
+        out.extend(us.into_iter().map(|u| V { u, s: s as i32 }));
+    } else {
+        let (lo, hi) = int_bounds(t);
+        let mut us = vec![lo, lo + 1, hi - 1, hi, 0, 1];
+        if lo < 0 {
+            us.push(-1);
+        }
+        for k in [127i128, 128, 255, 256, 32767, 32768, 65535, 65536, (1 << 31) - 1, 1 << 31, (1 << 32) - 1, 1 << 32, (1 << 53) - 1, 1 << 53, (1 << 53) + 1, i64::MAX as i128, 1 << 63] {
+            for v in [k, -k, -k - 1] {
+                if v >= lo && v <= hi && rng.chance(1, 4) {
+                    us.push(v);
                 }
             }
-            for _ in 0..extra {
-                let span = (hi - lo + 1) as u128;
-                let r = (((rng.next() as u128) << 64 | rng.next() as u128) % span) as i128 + lo;
-                us.push(r);
-            }
-            us.sort();
-            us.dedup();
-            out.extend(us.into_iter().map(|u| V { u, s: 0 }));
         }
+        for _ in 0..extra {
+            let span = (hi - lo + 1) as u128;
+            let r = (((rng.next() as u128) << 64 | rng.next() as u128) % span) as i128 + lo;
+            us.push(r);
+        }
+        us.sort();
+        us.dedup();
+        out.extend(us.into_iter().map(|u| V { u: big(u), s: 0 }));
     }
     out
 }
 
 fn array_of(t: &DataType, vs: &[V]) -> ArrayRef {
+    use arrow::array::{Decimal256Array, Decimal32Array, Decimal64Array};
     macro_rules! ints {
         ($arr:ident, $ty:ty) => {
-            Arc::new($arr::from(vs.iter().map(|v| v.u as $ty).collect::<Vec<$ty>>())) as ArrayRef
+            Arc::new($arr::from(vs.iter().map(|v| v.u.to_i128().unwrap() as $ty).collect::<Vec<$ty>>())) as ArrayRef
         };
     }
     match t {
@@ -165,48 +208,90 @@ fn array_of(t: &DataType, vs: &[V]) -> ArrayRef {
         DataType::UInt16 => ints!(UInt16Array, u16),
         DataType::UInt32 => ints!(UInt32Array, u32),
         DataType::UInt64 => ints!(UInt64Array, u64),
-        DataType::Decimal128(p, s) => Arc::new(
-            Decimal128Array::from(vs.iter().map(|v| v.u).collect::<Vec<i128>>()).with_precision_and_scale(*p, *s).unwrap(),
-        ),
+        DataType::Decimal32(p, s) => Arc::new(Decimal32Array::from(vs.iter().map(|v| v.u.to_i128().unwrap() as i32).collect::<Vec<i32>>()).with_precision_and_scale(*p, *s).unwrap()),
+        DataType::Decimal64(p, s) => Arc::new(Decimal64Array::from(vs.iter().map(|v| v.u.to_i128().unwrap() as i64).collect::<Vec<i64>>()).with_precision_and_scale(*p, *s).unwrap()),
+        DataType::Decimal128(p, s) => Arc::new(Decimal128Array::from(vs.iter().map(|v| v.u.to_i128().unwrap()).collect::<Vec<i128>>()).with_precision_and_scale(*p, *s).unwrap()),
+        DataType::Decimal256(p, s) => Arc::new(Decimal256Array::from(vs.iter().map(|v| v.u).collect::<Vec<i256>>()).with_precision_and_scale(*p, *s).unwrap()),
         _ => unreachable!(),
     }
 }
 
-fn pow10(n: u32) -> i256 {
-    let mut r = i256::from_i128(1);
-    let ten = i256::from_i128(10);
-    for _ in 0..n {
-        r = r.checked_mul(ten).unwrap();
+/// Pairs for which the UNCHANGED coercion compares in the integer type, truncating the decimal (finding, see
+/// notes/C47.md): the decimal variant is too narrow to hold the integer type (`coerce_numeric_type_to_decimal32/64`
+/// answers None), `decimal_coercion` gives up and `numerical_coercion`'s `(Int32, _)`-style wildcard arms pick the
+/// integer type.  Exactly these pairs, by type rule — any other lossy pair keeps the generic signature.
+fn narrow_pair(a: &DataType, b: &DataType) -> bool {
+    use DataType::*;
+    let one = |d: &DataType, i: &DataType| match d {
+        Decimal32(..) => matches!(i, Int32 | UInt32 | Int64 | UInt64),
+        Decimal64(..) => matches!(i, Int64 | UInt64),
+        _ => false,
+    };
+    one(a, b) || one(b, a)
+}
+/// the value truncated toward zero to an integer (what CAST(decimal AS integer) yields)
+fn trunc(v: V) -> V {
+    if v.s <= 0 {
+        return v;
     }
-    r
+    V { u: v.u / p10(v.s as u32), s: 0 }
+}
+
+/// exact decimal text pieces of |value|: (integer digits without leading zeros, fraction digits without trailing zeros)
+fn digits_of(v: V) -> (bool, String, String) {
+    let neg = v.u < big(0);
+    let mag = if neg { v.u.wrapping_neg() } else { v.u };
+    let mut d = mag.to_string();
+    let (mut ip, mut fp) = if v.s <= 0 {
+        d.push_str(&"0".repeat((-v.s) as usize));
+        (d, String::new())
+    } else {
+        let s = v.s as usize;
+        let padded = format!("{:0>width$}", d, width = s + 1);
+        (padded[..padded.len() - s].to_string(), padded[padded.len() - s..].to_string())
+    };
+    ip = ip.trim_start_matches('0').to_string();
+    fp = fp.trim_end_matches('0').to_string();
+    let zero = ip.is_empty() && fp.is_empty();
+    (neg && !zero, ip, fp)
+}
+/// exact comparison of two decimal values (no arithmetic that could overflow)
+fn cmp_exact(x: V, y: V) -> std::cmp::Ordering {
+    use std::cmp::Ordering::*;
+    let (nx, ix, fx) = digits_of(x);
+    let (ny, iy, fy) = digits_of(y);
+    let mag = |ia: &str, fa: &str, ib: &str, fb: &str| ia.len().cmp(&ib.len()).then_with(|| ia.cmp(ib)).then_with(|| {
+        let w = fa.len().max(fb.len());
+        format!("{:0<w$}", fa, w = w).cmp(&format!("{:0<w$}", fb, w = w))
+    });
+    match (nx, ny) {
+        (false, true) => Greater,
+        (true, false) => Less,
+        (false, false) => mag(&ix, &fx, &iy, &fy),
+        (true, true) => mag(&iy, &fy, &ix, &fx),
+    }
 }
 /// the exact mathematical answer
 fn math(op: Operator, x: V, y: V) -> bool {
-    let a = i256::from_i128(x.u).checked_mul(pow10(y.s)).unwrap();
-    let b = i256::from_i128(y.u).checked_mul(pow10(x.s)).unwrap();
+    use std::cmp::Ordering::*;
+    let c = cmp_exact(x, y);
     match op {
-        Operator::Eq => a == b,
-        Operator::NotEq => a != b,
-        Operator::Lt => a < b,
-        Operator::LtEq => a <= b,
-        Operator::Gt => a > b,
-        Operator::GtEq => a >= b,
+        Operator::Eq => c == Equal,
+        Operator::NotEq => c != Equal,
+        Operator::Lt => c == Less,
+        Operator::LtEq => c != Greater,
+        Operator::Gt => c == Greater,
+        Operator::GtEq => c != Less,
         _ => unreachable!(),
     }
 }
 
 fn literal_sql(t: &DataType, v: V) -> String {
     // an exact literal of type t: decimal text cast to the type
-    let neg = v.u < 0;
-    let digits = v.u.unsigned_abs().to_string();
-    let s = v.s as usize;
-    let text = if s == 0 {
-        digits
-    } else {
-        let padded = format!("{:0>width$}", digits, width = s + 1);
-        format!("{}.{}", &padded[..padded.len() - s], &padded[padded.len() - s..])
-    };
-    format!("CAST('{}{}' AS {})", if neg { "-" } else { "" }, text, type_sql(t))
+    let (neg, ip, fp) = digits_of(v);
+    let ip = if ip.is_empty() { "0".to_string() } else { ip };
+    let text = if fp.is_empty() { ip } else { format!("{ip}.{fp}") };
+    format!("arrow_cast('{}{}', '{}')", if neg { "-" } else { "" }, text, t)
 }
 
 struct Ctx {
@@ -215,6 +300,10 @@ struct Ctx {
 impl Ctx {
     /// run a query returning one boolean column; None = any error
     fn bools(&self, ctx: &SessionContext, sql: &str) -> Option<Vec<Option<bool>>> {
+        // a panic inside the engine (e.g. the i8 overflow of decimal coercion, see notes) counts as "no answer"
+        std::panic::catch_unwind(std::panic::AssertUnwindSafe(|| self.bools_inner(ctx, sql))).unwrap_or(None)
+    }
+    fn bools_inner(&self, ctx: &SessionContext, sql: &str) -> Option<Vec<Option<bool>>> {
         self.rt.block_on(async {
             let df = ctx.sql(sql).await.ok()?;
             let batches = df.collect().await.ok()?;
@@ -229,6 +318,9 @@ impl Ctx {
         })
     }
     fn ids(&self, ctx: &SessionContext, sql: &str) -> Option<Vec<i64>> {
+        std::panic::catch_unwind(std::panic::AssertUnwindSafe(|| self.ids_inner(ctx, sql))).unwrap_or(None)
+    }
+    fn ids_inner(&self, ctx: &SessionContext, sql: &str) -> Option<Vec<i64>> {
         self.rt.block_on(async {
             let df = ctx.sql(sql).await.ok()?;
             let batches = df.collect().await.ok()?;
@@ -297,6 +389,7 @@ fn tables(run: &mut Run) {
 
 pub fn run(run: &mut Run, args: &Args) {
     let mut rng = Rng::new(args.seed);
+    hutil::quiet_panics();
     tables(run);
     let c = Ctx { rt: tokio::runtime::Builder::new_current_thread().enable_all().build().unwrap() };
     let thorough = run.thorough();
@@ -304,17 +397,42 @@ pub fn run(run: &mut Run, args: &Args) {
     types.extend(dec_types(thorough));
     let extra = run.budget(1, 6) as usize;
 
+    // ---- pure table oracle: coercion is symmetric on ALL ordered pairs of numeric types (8 integers, 3 floats,
+    //      Decimal32/64/128/256 at max precision, scale 0, scale = precision, negative scales, …); no model
+    {
+        let all = all_numeric_types();
+        run.add("numeric types in the symmetry table oracle", all.len() as u64);
+        for a in &all {
+            for b in &all {
+                let (a2, b2) = (a.clone(), b.clone());
+                let r = hutil::catch(move || (comparison_coercion(&a2, &b2), comparison_coercion(&b2, &a2), binary_numeric_coercion(&a2, &b2), binary_numeric_coercion(&b2, &a2)));
+                match r {
+                    Ok((ab, ba, nab, nba)) => {
+                        run.oracle(ab == ba, &format!("coercion-asymmetric comparison_coercion {} {}", type_sexp(a), type_sexp(b)), &format!("{ab:?} vs {ba:?}"));
+                        run.oracle(nab == nba, &format!("coercion-asymmetric binary_numeric_coercion {} {}", type_sexp(a), type_sexp(b)), &format!("{nab:?} vs {nba:?}"));
+                        run.count(if ab.is_some() { "symmetry table: comparable pair" } else { "symmetry table: not comparable" });
+                    }
+                    Err(p) => run.oracle(false, &format!("coercion-panic {} {}", type_sexp(a), type_sexp(b)), &p),
+                }
+            }
+        }
+    }
+
     // ---- coercion of every ordered pair
     for a in &types {
         for b in &types {
-            let got = comparison_coercion(a, b);
+            let (a2, b2) = (a.clone(), b.clone());
+            let Ok((got, back)) = hutil::catch(move || (comparison_coercion(&a2, &b2), comparison_coercion(&b2, &a2))) else {
+                // reported by the table oracle above (coercion-panic …)
+                run.count("coerce: comparison_coercion panics for this pair");
+                continue;
+            };
             let s = match &got {
                 None => "none".to_string(),
                 Some(t) => type_sexp(t),
             };
             run.case("coerce", &format!("({} {})", type_sexp(a), type_sexp(b)), &s, a != b);
-            let back = comparison_coercion(b, a);
-            run.oracle(got == back, &format!("coercion-asymmetric {} {}", type_sexp(a), type_sexp(b)), &format!("{got:?} vs {back:?}"));
+            run.oracle(got == back, &format!("coercion-asymmetric comparison_coercion {} {}", type_sexp(a), type_sexp(b)), &format!("{got:?} vs {back:?}"));
         }
     }
 
@@ -344,6 +462,7 @@ pub fn run(run: &mut Run, args: &Args) {
             let ctx = SessionContext::new_with_config(cfg.clone());
             ctx.register_batch("t", batch).unwrap();
             let pair = format!("{} {}", type_sexp(a), type_sexp(b));
+            let lossy = narrow_pair(a, b);
             for (op, opname, opsql) in OPS {
                 let swapped = op.swap().unwrap();
                 let swsql = OPS.iter().find(|o| o.0 == swapped).unwrap().2;
@@ -379,7 +498,9 @@ pub fn run(run: &mut Run, args: &Args) {
                     run.case("cmp", &format!("({opname} {pair} {} {} {} {})", x.u, x.s, y.u, y.s), &ans(got), a != b);
                     let input = format!("op={opname} types=({pair}) x={}e-{} y={}e-{}", x.u, x.s, y.u, y.s);
                     if let Some(g) = got {
-                        run.oracle(g == Some(math(op, x, y)), &format!("inexact-comparison projection {input}"), &format!("engine {}, exact {}", ans(got), math(op, x, y)));
+                        // known class only when the answer is exactly "compared after truncating the decimal side"
+                        let pre = if lossy && g == Some(math(op, trunc(x), trunc(y))) { LOSSY } else { "" };
+                        run.oracle(g == Some(math(op, x, y)), &format!("{pre}inexact-comparison projection {input}"), &format!("engine {}, exact {}", ans(got), math(op, x, y)));
                         run.count("engine answered");
                     } else {
                         run.count("engine error (cast overflow / not comparable)");
@@ -391,7 +512,7 @@ pub fn run(run: &mut Run, args: &Args) {
                 if sample_ctx && whole.is_some() {
                     let want: Vec<i64> = (0..n).filter(|i| math(op, xcol[*i], ycol[*i])).map(|i| i as i64).collect();
                     let got = c.ids(&ctx, &format!("SELECT id FROM t WHERE a {opsql} b"));
-                    run.oracle(got.as_ref() == Some(&want), &format!("inexact-comparison filter op={opname} types=({pair})"), &format!("got {got:?} want {want:?}"));
+                    run.oracle(got.as_ref() == Some(&want), &format!("{}inexact-comparison filter op={opname} types=({pair})", if lossy { LOSSY } else { "" }), &format!("got {got:?} want {want:?}"));
                     let gotm = c.ids(&ctx, &format!("SELECT id FROM t WHERE b {swsql} a"));
                     run.oracle(gotm == got, &format!("mirror-mismatch filter op={opname} types=({pair})"), &format!("{got:?} vs {gotm:?}"));
                     run.count("filter context queries");
@@ -412,9 +533,9 @@ pub fn run(run: &mut Run, args: &Args) {
                     let input = format!("op={opname} types=({pair}) literal y={}e-{}", y.u, y.s);
                     if let Some(g) = &got {
                         let mut sorted = xs.clone();
-                        sorted.sort_by(|p, q| p.u.cmp(&q.u));
+                        sorted.sort_by(|p, q| cmp_exact(*p, *q).then(p.u.cmp(&q.u)));
                         let want: Vec<Option<bool>> = sorted.iter().map(|x| Some(math(op, *x, *y))).collect();
-                        run.oracle(*g == want, &format!("inexact-comparison literal {input}"), &format!("got {g:?} want {want:?} sql {q}"));
+                        run.oracle(*g == want, &format!("{}inexact-comparison literal {input}", if lossy { LOSSY } else { "" }), &format!("got {g:?} want {want:?} sql {q}"));
                         run.count("literal context: engine answered");
                     } else {
                         run.count("literal context: engine error");
@@ -429,14 +550,14 @@ pub fn run(run: &mut Run, args: &Args) {
                 run.oracle(eq.is_none() || inl.is_none() || eq == inl, &format!("inlist-vs-eq types=({pair})"), &format!("= gives {eq:?}, IN gives {inl:?}"));
                 let want: Option<Vec<i64>> = eq.as_ref().map(|_| (0..n).filter(|i| math(Operator::Eq, xcol[*i], ycol[*i])).map(|i| i as i64).collect());
                 let join = c.ids(&ctx, "SELECT l.id FROM t l JOIN t r ON l.a = r.b AND l.id = r.id");
-                run.oracle(want.is_none() || join.is_none() || join == want, &format!("equijoin-vs-eq types=({pair})"), &format!("join ids {join:?}, exact {want:?}"));
+                run.oracle(want.is_none() || join.is_none() || join == want, &format!("{}equijoin-vs-eq types=({pair})", if lossy { LOSSY } else { "" }), &format!("join ids {join:?}, exact {want:?}"));
                 // a real hash join on the mixed-type key: distinct x values against distinct y values
                 let jcount = c.ids(&ctx, "SELECT count(*) FROM (SELECT DISTINCT a FROM t) l JOIN (SELECT DISTINCT b FROM t) r ON l.a = r.b");
                 if eq.is_some() {
                     let mut dx = xs.clone();
                     dx.dedup();
                     let want_n = dx.iter().map(|x| ys.iter().filter(|y| math(Operator::Eq, *x, **y)).count()).sum::<usize>() as i64;
-                    run.oracle(jcount.is_none() || jcount == Some(vec![want_n]), &format!("equijoin-count types=({pair})"), &format!("join count {jcount:?}, exact {want_n}"));
+                    run.oracle(jcount.is_none() || jcount == Some(vec![want_n]), &format!("{}equijoin-count types=({pair})", if lossy { LOSSY } else { "" }), &format!("join count {jcount:?}, exact {want_n}"));
                 }
                 run.count("IN-list / equi-join contexts");
             }
